@@ -77,8 +77,15 @@ def _build(seed, attempt, metric_hook=None):
             g.add_edges([(p, sub) for p in parents])
             elements.append(sub)
     # incompatibility between options of different choices
-    if len(choices) >= 2 and rnd.random() < 0.4:
-        a, b = rnd.sample(all_opts, 2)
+    # (not on an option node that several choices share: for those the complete encoder lists designs twice or lists
+    # designs that do not decode - the subject of C03/C04/C06, not of the properties using this pool; DESIGN.md 11.5)
+    n_used = {}
+    for c_ in choices:
+        for _, o_ in g.graph.out_edges(c_):
+            n_used[o_] = n_used.get(o_, 0)+1
+    single = [o for o in all_opts if n_used.get(o, 0) <= 1]
+    if len(choices) >= 2 and len(single) >= 2 and rnd.random() < 0.4:
+        a, b = rnd.sample(single, 2)
         try:
             g.add_incompatibility_constraint([a, b])
         except Exception:  # noqa
